@@ -35,3 +35,14 @@ impl Remember {
 
 /// N-DET: state shared between calls.
 pub static CALLS: std::sync::atomic::AtomicUsize = std::sync::atomic::AtomicUsize::new(0);
+
+/// N-DET: an address turned into a number that leaves the function.
+pub fn address_of(s: &String) -> usize {
+    unsafe { std::mem::transmute::<*const String, usize>(s as *const String) }
+}
+
+/// Not N-DET: dereferencing a raw pointer makes rustc (debug assertions) turn the pointer into an
+/// integer for its alignment / null checks only; the fixture must *not* be flagged for this one.
+pub fn through_raw(p: *const u32) -> u32 {
+    unsafe { *p }
+}
